@@ -89,10 +89,8 @@ TObs ==
   /\ LET e == Rec[l]
          n == Len(nodes)
          wrongNodes == {k \in 1..Len(e.nodes) : k > n \/ e.nodes[k] # ExpectedNode(k - 1)}
-         gotKeys == {<<e.edges[i][2][1], e.edges[i][2][2]>> : i \in 1..Len(e.edges)}
-         Got(dir, x) == Cardinality({i \in 1..Len(e.edges) : e.edges[i][1] = dir /\ e.edges[i][2][1] = x[1] /\ e.edges[i][2][2] = x[2]})
-         wrongEdges == {x \in DOMAIN edges \cup gotKeys :
-                          LET want == IF x \in DOMAIN edges THEN edges[x] ELSE 0 IN Got("o", x) # want \/ Got("i", x) # want}
+         expEdges == {<<"o", x[1], x[2], edges[x]>> : x \in DOMAIN edges} \cup {<<"i", x[1], x[2], edges[x]>> : x \in DOMAIN edges}
+         gotEdges == {<<e.edges[i][1], e.edges[i][2], e.edges[i][3], e.edges[i][4]>> : i \in 1..Len(e.edges)}
          badHits == {k \in 1..Len(e.lookups) :
                        LET q == e.lookups[k] IN
                        q.indexed /\ Len(q.hits) > 0 /\ \E h \in ToSet(q.hits) : h >= n \/ nodes[h + 1][1] # q.value \/ nodes[h + 1][2] # q.label}
@@ -104,10 +102,12 @@ TObs ==
                        wrong |-> Cardinality(wrongNodes),
                        first_wrong |-> IF wrongNodes = {} THEN <<>> ELSE LET k == Min(wrongNodes) IN <<e.nodes[k], IF k <= n THEN ExpectedNode(k - 1) ELSE <<>>>>,
                        after_foreign_write |-> foreign]))
-        /\ (IF wrongEdges = {} THEN TRUE
-            ELSE Emit([prop |-> "C18", at |-> l, kind |-> "content", what |-> "relationships", wrong_keys |-> Cardinality(wrongEdges),
-                       example |-> LET x == CHOOSE y \in wrongEdges : TRUE IN
-                                   <<x, IF x \in DOMAIN edges THEN edges[x] ELSE 0, Got("o", x), Got("i", x)>>, after_foreign_write |-> foreign]))
+        /\ (IF gotEdges = expEdges /\ Len(e.edges) = Cardinality(gotEdges) THEN TRUE
+            ELSE Emit([prop |-> "C18", at |-> l, kind |-> "content", what |-> "relationships (direction, source, target, multiplicity)",
+                       missing |-> Cardinality(expEdges \ gotEdges), unexpected |-> Cardinality(gotEdges \ expEdges),
+                       example |-> IF expEdges \ gotEdges # {} THEN CHOOSE y \in expEdges \ gotEdges : TRUE
+                                   ELSE IF gotEdges \ expEdges # {} THEN CHOOSE y \in gotEdges \ expEdges : TRUE ELSE <<"listed twice", 0, 0, 0>>,
+                       after_foreign_write |-> foreign]))
         /\ (IF badHits = {} THEN TRUE
             ELSE Emit([prop |-> "C18", at |-> l, kind |-> "content", what |-> "index hit on a node that does not have the value",
                        lookup |-> e.lookups[Min(badHits)], after_foreign_write |-> foreign]))
@@ -130,10 +130,8 @@ TCrash ==
          Exp(sq, i) == <<i, sq[i + 1][1], sq[i + 1][2], sq[i + 1][1], BlobLen(i), BlobSum(i)>>
          isPre == Len(e.nodes) = n /\ \A j \in 1..n : e.nodes[j] = Exp(nodes, j - 1)
          isPost == Len(e.nodes) = n + k /\ \A j \in 1..(n + k) : e.nodes[j] = Exp(post, j - 1)
-         gotKeys == {<<e.edges[i][2][1], e.edges[i][2][2]>> : i \in 1..Len(e.edges)}
-         Got(dir, x) == Cardinality({i \in 1..Len(e.edges) : e.edges[i][1] = dir /\ e.edges[i][2][1] = x[1] /\ e.edges[i][2][2] = x[2]})
-         edgesOk == \A x \in DOMAIN edges \cup gotKeys :
-                      LET want == IF x \in DOMAIN edges THEN edges[x] ELSE 0 IN Got("o", x) = want /\ Got("i", x) = want
+         expEdges == {<<"o", x[1], x[2], edges[x]>> : x \in DOMAIN edges} \cup {<<"i", x[1], x[2], edges[x]>> : x \in DOMAIN edges}
+         edgesOk == {<<e.edges[i][1], e.edges[i][2], e.edges[i][3], e.edges[i][4]>> : i \in 1..Len(e.edges)} = expEdges /\ Len(e.edges) = Cardinality(expEdges)
      IN /\ (IF e.open = "ok" THEN TRUE
             ELSE Emit([prop |-> "C18", at |-> l, kind |-> "crash-image-does-not-open", image |-> e.kind, site |-> e.site, io_step |-> e.io_step, detail |-> e.open]))
         /\ (IF e.open # "ok" \/ Len(e.errs) = 0 THEN TRUE
